@@ -12,17 +12,25 @@ class Check(SiteCheck):
                  'every run, Gen/Listings.v): a page is written for o iff o is visible, own-page and reachable through contents '
                  '(C11_pages_for_visible_ownpage); every visible reachable member has its name/fullName anchors on its parent\'s '
                  'written page (C11_anchors_for_visible_members); taglink shortens to #frag only on the target\'s own page and both '
-                 'forms denote the same anchor (C11_same_page_shortening, all inputs); every taglink-built href and every url field '
-                 'of all-documents/objects.inv is live when nothing registered is unreachable (C11_links_live_partial) -- refuted '
-                 'without the guard by superseded duplicates (C11_links_live_refuted), by the pre-fd84d91 taglink '
-                 '(C11_taglink_old_refuted) and for names that need percent-encoding (C11_href_encodes_file_refuted/_partial); single '
-                 'root => index.html + <root>.html (C11_index_single_root). Tie: listings_checked (vm_compute on the regenerated '
-                 'table) + set-for-set correspondence of files / anchors / per-producer (page, href, private) with a crawl of the real '
-                 'output of driver.main on generated projects x privacy rules x themes x sidebar depths, and a crawler oracle that '
-                 'resolves every href/src/url of every written file.'),
-        'note': ('Partial: liveness is proved under all_reachable (no superseded duplicates / collision leftovers); View In Hierarchy '
-                 'anchors, member self-links and docutils-internal links are only crawled. Registry (incl. privacy class per object, '
-                 'mro, subclasses, parentMod) is an input observed from the real System. Trusted: Coq kernel, gen_listings.py, '
-                 'extraction, harness + crawler; quote never emits "#".'),
+                 'forms denote the same anchor (C11_same_page_shortening, all inputs); UNCONDITIONALLY live: member tables, package '
+                 '__init__ tables, the direct sidebar items at every expand depth, moduleIndex (normal and compact form), index.html '
+                 'roots, objects.inv (C11_links_live) and the member self-links (C11_member_selflinks_live); every visible class with '
+                 'plain names has its <a name> in classIndex.html and "View In Hierarchy" is live (C11_hierarchy_anchor, '
+                 'C11_hierarchy_links_live_partial / _refuted: base = superseded duplicate); docstring cross references with the '
+                 'resolver as an oracle: origin, liveness when the docstring\'s source is documented on the rendering page '
+                 '(C11_xref_origin, C11_xref_links_live_partial) and the exact counterexample otherwise (C11_xref_links_live_refuted = '
+                 'known finding inherited-docstring-context); every other taglink-built href and url field under all_reachable '
+                 '(C11_links_live_partial / _refuted: superseded duplicates); pre-fd84d91 taglink (C11_taglink_old_refuted); names that '
+                 'need percent-encoding (C11_href_encodes_file_refuted/_partial); single root (C11_index_single_root). Tie: '
+                 'listings_checked (vm_compute on the regenerated table) + set-for-set correspondence of files / anchors / per-producer '
+                 '(page, href, private) incl. docstring and summary cross references with a crawl of the real output of driver.main on '
+                 'generated projects x privacy rules x themes x sidebar depths, and a crawler oracle that resolves every href/src/url of '
+                 'every written file.'),
+        'note': ('Partial: non-contents producers are live only under all_reachable (no superseded duplicates / collision leftovers). '
+                 'Oracles / inputs observed from the real System: the registry (parents, contents, mro, subclasses, baseobjects, '
+                 'parentMod, System.privacyClass per object, docsource) and the targets the docstring linker resolved. Not modelled: '
+                 'class-signature links (annotation linker; checked against the model\'s taglink form and by the crawler), docutils-'
+                 'internal links, zope.interface pages. Trusted: Coq kernel, gen_listings.py, extraction, harness + crawler; quote '
+                 'never emits "#".'),
         'technique': 'Coq proof (invariant over all entry producers of the site model, table-driven by a regenerated listing skeleton) + crawl correspondence',
     }
